@@ -133,6 +133,21 @@ static void revived_fn(void *arg)
     sim_progress();
 }
 
+static struct kcreator {
+    int first, step;
+    volatile int done;
+} KC[3];
+static void key_creator(void *arg)
+{
+    struct kcreator *c = (struct kcreator *)arg;
+    for (int k = c->first; k < S.nk; k += c->step) {
+        ABT_OK(ABT_key_create(dtor, &S.keys[k]));
+        sim_yield();
+    }
+    c->done = 1;
+    sim_progress();
+}
+
 /* sets keys of other (running) ULTs: races with the owner's lazy key-table creation */
 static void remote_setter(void *arg)
 {
@@ -168,8 +183,30 @@ static void run_c16(void)
     wl_rt *rt = &S.rt;
     wl_rt_start(rt, WL_RT_NO_TOPO2);
     S.nk = plan_range(1, sim_limit("keys", MAXK));
-    for (int k = 0; k < S.nk; k++)
-        ABT_OK(ABT_key_create(dtor, &S.keys[k]));
+    {
+        /* the keys are created concurrently by the primary and up to two external threads:
+         * distinct handles must be distinct keys */
+        int ncr = plan_range(1, 3);
+        int tid[2];
+        for (int c = 1; c < ncr; c++) {
+            KC[c].first = c;
+            KC[c].step = ncr;
+            KC[c].done = 0;
+            tid[c - 1] = sim_thread_create(key_creator, &KC[c]);
+        }
+        for (int k = 0; k < S.nk; k += ncr) {
+            ABT_OK(ABT_key_create(dtor, &S.keys[k]));
+            sim_yield();
+        }
+        for (int c = 1; c < ncr; c++) {
+            while (!KC[c].done)
+                ABT_OK(ABT_thread_yield());
+            sim_thread_join(tid[c - 1]);
+        }
+        for (int a = 0; a < S.nk; a++)
+            for (int b = 0; b < a; b++)
+                SIM_CHECK(S.keys[a] != S.keys[b], "key:duplicate-handle", "ABT_key_create returned the same handle twice");
+    }
     int n = plan_range(1, sim_limit("units", MAXU));
     S.n = n;
     sim_note("C16 keys=%d units=%d: ", S.nk, n);
